@@ -149,6 +149,7 @@ type Exec struct {
 	minfo        map[*ssa.BasicBlock]*mergeInfo
 	NoMerge      bool
 	Deadline     time.Time // wall-clock budget of the instance (zero = none)
+	NoEarlyStop  bool      // explore to the end even after a finding (harnesses with a listed known finding)
 	firstFinding time.Time
 	md5Seen      []md5Entry // digests taken on this path (collision-free abstraction)
 	qcache       map[[2]uint64]Result
@@ -216,7 +217,7 @@ func (ex *Exec) Run(fn *ssa.Function) {
 			ex.Stats.Unwinds["max-paths"]++
 			return
 		}
-		if len(ex.Findings) > 0 {
+		if len(ex.Findings) > 0 && !ex.NoEarlyStop {
 			// an instance that already has a counterexample need not be exhausted: give it 20 more seconds
 			if ex.firstFinding.IsZero() {
 				ex.firstFinding = time.Now()
